@@ -76,6 +76,10 @@ def _one(name, a, allp, out):
                 elif pid == meta["property"]:
                     print(f"   {pid} rc={rr.returncode} {rr.stdout.splitlines()[-1] if rr.stdout else rr.stderr[-200:]}", file=out)
             own = [c for c in caught if c[0] == meta["property"] or c[0] in meta.get("accept_cross", [])]
+            if not own and meta.get("out_of_domain"):
+                # the change only misbehaves for callers outside the documented domain of the API; recorded, not counted as a miss
+                print(f"{name:28s} property={meta['property']} OUT-OF-DOMAIN (not driven): {meta['out_of_domain']}", file=out)
+                return 0
             print(f"{name:28s} property={meta['property']} {'CAUGHT' if own else 'MISSED'} by-own-check; all catching: {[c[0] for c in caught]}", file=out)
             for c in caught[:3]:
                 print(f"      {c[0]}: {c[1]}", file=out)
